@@ -265,6 +265,18 @@ Section P.
     - f_equal. apply IH; auto.
   Qed.
 
+  Lemma idle_after : forall n cnt cnt' s p k d l,
+    all_idle n cnt s -> (p < n)%nat -> (forall q, cnt' q = if Nat.eqb q p then k else cnt q) ->
+    all_idle n cnt' {| sd := d; procs := set_nth p (idle k) (procs s); log := l |}.
+  Proof.
+    intros. eapply all_idle_ext; [|apply all_idle_set; eauto]. intro q; simpl. symmetry. auto.
+  Qed.
+
+  Ltac idle_tac :=
+    let q := fresh "q" in let E := fresh "E" in
+    eapply idle_after; eauto; intro q; unfold bump;
+    destruct (Nat.eqb q _) eqn:E; auto; apply Nat.eqb_eq in E; subst; auto.
+
   Lemma seq_main : forall hist n s seen cnt,
     all_idle n cnt s -> cache_rel seen (sd s) -> seen_ok seen -> pids_below n hist ->
     log (fold_left do_cmd hist s) = log s ++ spec_seq seen cnt hist.
@@ -277,43 +289,33 @@ Section P.
       + (* CGet *)
         rewrite (Hc i). destruct (mem i seen) eqn:Em.
         * (* seen: hit *)
-          specialize (Hs i Em). unfold has in Hs. destruct (base i) as [v|] eqn:Eb; try discriminate.
-          erewrite IH with (seen := i :: seen) (cnt := bump cnt p) (n := n); simpl; auto.
-          -- rewrite <- app_assoc. simpl. unfold has, expected. rewrite Eb. reflexivity.
-          -- eapply all_idle_ext; [|apply all_idle_set; eauto]. intro q. unfold bump. simpl.
-             destruct (Nat.eqb q p) eqn:E; auto. apply Nat.eqb_eq in E. subst; auto.
-          -- intro j. rewrite mem_cons. rewrite (Hc j). destruct (j =? i) eqn:E; simpl; auto.
+          pose proof (Hs i Em) as Hh. unfold has in Hh. destruct (base i) as [v|] eqn:Eb; try discriminate.
+          rewrite (IH n _ (i :: seen) (bump cnt p)); [ | idle_tac | | | assumption].
+          -- simpl. rewrite <- app_assoc. simpl. unfold has, expected. rewrite Eb. reflexivity.
+          -- intro j. simpl sd. rewrite mem_cons. rewrite (Hc j). destruct (j =? i) eqn:E; simpl; auto.
              apply Z.eqb_eq in E. subst. rewrite Em. reflexivity.
           -- intro j. rewrite mem_cons. destruct (j =? i) eqn:E; simpl; auto.
              apply Z.eqb_eq in E. subst. intros _. unfold has. rewrite Eb. reflexivity.
         * destruct (base i) as [v|] eqn:Eb.
           -- (* miss, loaded and stored *)
-             erewrite IH with (seen := i :: seen) (cnt := bump cnt p) (n := n); simpl; auto.
-             ++ rewrite <- app_assoc. simpl. unfold has, expected. rewrite Eb. reflexivity.
-             ++ eapply all_idle_ext; [|apply all_idle_set; eauto]. intro q. unfold bump. simpl.
-                destruct (Nat.eqb q p) eqn:E; auto. apply Nat.eqb_eq in E. subst; auto.
-             ++ intro j. rewrite mem_cons. simpl. destruct (j =? i) eqn:E; simpl.
+             rewrite (IH n _ (i :: seen) (bump cnt p)); [ | idle_tac | | | assumption].
+             ++ simpl. rewrite <- app_assoc. simpl. unfold has, expected. rewrite Eb. reflexivity.
+             ++ intro j. simpl sd. rewrite mem_cons. simpl. destruct (j =? i) eqn:E; simpl.
                 ** apply Z.eqb_eq in E. subst. auto.
                 ** apply Hc.
              ++ intro j. rewrite mem_cons. destruct (j =? i) eqn:E; simpl; auto.
                 apply Z.eqb_eq in E. subst. intros _. unfold has. rewrite Eb. reflexivity.
           -- (* the wrapped dataset raises: nothing cached *)
-             erewrite IH with (seen := seen) (cnt := cnt) (n := n); simpl; auto.
-             ++ rewrite <- app_assoc. simpl. unfold has, expected. rewrite Eb. reflexivity.
-             ++ eapply all_idle_ext; [|apply all_idle_set; eauto]. intro q. simpl.
-                destruct (Nat.eqb q p) eqn:E; auto. apply Nat.eqb_eq in E. subst; auto.
+             rewrite (IH n _ seen cnt); [ | idle_tac | assumption | assumption | assumption].
+             simpl. rewrite <- app_assoc. simpl. unfold has, expected. rewrite Eb. reflexivity.
       + (* CClear *)
-        erewrite IH with (seen := []) (cnt := cnt) (n := n); simpl; auto.
-        * rewrite <- app_assoc. reflexivity.
-        * eapply all_idle_ext; [|apply all_idle_set; eauto]. intro q. simpl.
-          destruct (Nat.eqb q p) eqn:E; auto. apply Nat.eqb_eq in E. subst; auto.
+        rewrite (IH n _ [] cnt); [ | idle_tac | | | assumption].
+        * simpl. rewrite <- app_assoc. reflexivity.
         * intro j. reflexivity.
         * intros j Hj. discriminate.
       + (* CLen *)
-        erewrite IH with (seen := seen) (cnt := cnt) (n := n); simpl; auto.
-        * rewrite <- app_assoc. reflexivity.
-        * eapply all_idle_ext; [|apply all_idle_set; eauto]. intro q. simpl.
-          destruct (Nat.eqb q p) eqn:E; auto. apply Nat.eqb_eq in E. subst; auto.
+        rewrite (IH n _ seen cnt); [ | idle_tac | assumption | assumption | assumption].
+        simpl. rewrite <- app_assoc. reflexivity.
   Qed.
 
   Lemma seq_transparent_l : forall n hist,
@@ -342,7 +344,6 @@ Section P.
         * apply IH. intros j [<-|Hj] Hh.
           -- rewrite Hh. rewrite mem_cons, Z.eqb_refl. reflexivity.
           -- specialize (HS j Hj Hh). destruct (has base i); auto. rewrite mem_cons, HS. apply orb_true_r.
-    - apply IH. intros j [].
   Qed.
 
   Lemma seq_at_most_one_load_l : forall n hist,
@@ -409,6 +410,95 @@ Section P.
     eexists. reflexivity.
   Qed.
 End P.
+
+(* ------------------------------------------------------------------ progress *)
+Section Progress.
+  Variable fixed : bool.
+  Variable base : Z -> option Z.
+  Variable blen : Z.
+  Variable tf : Z -> Z -> Z.
+  Variable draws : nat -> nat -> Z.
+  Notation pstep := (pstep fixed base blen tf draws).
+  Notation step := (step fixed base blen tf draws).
+  Notation run := (run fixed base blen tf draws).
+
+  (* atomic steps process needs at most to finish its program *)
+  Definition work (pr : proc) : nat :=
+    match pc pr with
+    | PStart => 4 * length (todo pr)
+    | PHit _ => 4 * pred (length (todo pr)) + 3
+    | PMiss _ => 4 * pred (length (todo pr)) + 2
+    | PSet _ _ => 4 * pred (length (todo pr)) + 1
+    end.
+
+  Lemma pstep_work : forall p d pr d' pr' evs,
+    pstep p d pr = (d', pr', evs) -> (work pr' < work pr \/ (work pr = 0 /\ pr' = pr))%nat.
+  Proof.
+    intros p d pr d' pr' evs H. unfold Model.pstep in H. unfold work.
+    destruct (pc pr) eqn:Epc; [destruct (todo pr) as [|[i| |] r] eqn:Et; [| destruct (dget i d) | |]
+                      | destruct (base i) | | destruct (dget i d); [|destruct fixed]];
+      inversion H; subst; simpl; rewrite ?Epc, ?Et; simpl;
+      try (destruct (todo pr) as [|c r]; simpl; lia); try lia.
+    right. auto.
+  Qed.
+
+  Definition work_of (s : state) (p : nat) : nat :=
+    match nth_error (procs s) p with Some pr => work pr | None => O end.
+
+  Lemma step_work : forall s q p,
+    (q <> p -> work_of (step s q) p = work_of s p) /\
+    (q = p -> (work_of (step s q) p <= pred (work_of s p))%nat).
+  Proof.
+    intros s q p. unfold work_of, Model.step.
+    destruct (nth_error (procs s) q) as [pr|] eqn:E.
+    - destruct (pstep q (sd s) pr) as [[d' pr'] evs] eqn:Es. simpl. split.
+      + intro Hne. rewrite nth_error_set_nth_neq by auto. reflexivity.
+      + intros ->. rewrite (nth_error_set_nth_eq _ _ _ _ _ E), E.
+        destruct (pstep_work _ _ _ _ _ _ Es) as [Hlt | [Hz ->]]; lia.
+    - split; auto. intros ->. rewrite E. lia.
+  Qed.
+
+  Lemma run_work : forall sched s p,
+    (work_of (run sched s) p <= work_of s p - count_occ Nat.eq_dec sched p)%nat.
+  Proof.
+    induction sched as [|q r IH]; simpl; intros s p; [lia|].
+    specialize (IH (step s q) p). destruct (step_work s q p) as [Hne Heq].
+    destruct (Nat.eq_dec q p) as [->|Hn].
+    - specialize (Heq eq_refl). lia.
+    - rewrite (Hne Hn) in IH. lia.
+  Qed.
+
+  Lemma work_zero : forall pr, work pr = O -> pc pr = PStart /\ todo pr = [].
+  Proof.
+    intros pr. unfold work. destruct (pc pr); try lia. destruct (todo pr); simpl; try lia. auto.
+  Qed.
+
+  Lemma run_length : forall sched s, length (procs (run sched s)) = length (procs s).
+  Proof.
+    induction sched as [|q r IH]; simpl; intros; auto. rewrite IH. unfold Model.step.
+    destruct (nth_error (procs s) q) as [pr|]; auto. destruct (pstep q (sd s) pr) as [[a b] c]. simpl.
+    apply length_set_nth.
+  Qed.
+
+  (* every process finishes its program after at most 4 own steps per command, whatever
+     the other processes do in between (the KeyError fallback cannot loop) *)
+  Lemma conc_progress_l : forall d0 progs sched p prog,
+    nth_error progs p = Some prog ->
+    (4 * length prog <= count_occ Nat.eq_dec sched p)%nat ->
+    exists pr, nth_error (procs (run sched (init d0 progs))) p = Some pr /\ pc pr = PStart /\ todo pr = [].
+  Proof.
+    intros d0 progs sched p prog Hp Hc.
+    pose proof (run_work sched (init d0 progs) p) as Hw.
+    assert (Hi : work_of (init d0 progs) p = (4 * length prog)%nat).
+    { unfold work_of; simpl. rewrite nth_error_map, Hp. reflexivity. }
+    rewrite Hi in Hw.
+    unfold work_of in Hw.
+    destruct (nth_error (procs (run sched (init d0 progs))) p) as [pr|] eqn:E.
+    - exists pr. split; auto. apply work_zero. lia.
+    - exfalso. apply nth_error_None in E. rewrite run_length in E. simpl in E. rewrite map_length in E.
+      assert (p < length progs)%nat by (apply nth_error_Some; congruence). lia.
+  Qed.
+End Progress.
 
 (* ------------------------------------------------------------- the repaired reader *)
 Lemma conc_transparent_l : forall base blen tf draws d0 progs sched,
